@@ -509,6 +509,22 @@ func checkC10(w *World, r *Report) {
 				good = false
 			}
 		}
+		if len(edges) == 0 {
+			// the predicate sits in a validation helper whose error the validator checks or returns
+			isSeq := func(c *ssa.Call) bool {
+				if !strings.HasSuffix(callName(c.Common()), "x/cfeminter/types.Params.ContainsMinter") {
+					return false
+				}
+				a := c.Common().Args
+				_, f, ok := fieldOfValue(a[len(a)-1])
+				return ok && f == "SequenceId"
+			}
+			spec := GuardSpec{Name: "ContainsMinter(MinterState.SequenceId)", ValueFree: true,
+				Edges: func(fn *ssa.Function, bind Bind, isVal func(ssa.Value) bool) []Edge {
+					return boolCallEdges(fn, isSeq, true)
+				}}
+			good = w.CG().successRequires(gv, Bind{}, spec, 0)
+		}
 		r.Check(good, "C10.currentperiod", "genesis validation: current period must be among the configured periods", w.Pos(gv.Pos()), "ContainsMinter(MinterState.SequenceId)==false leads to an error", "a genesis whose minter state points to a missing period is accepted")
 	} else {
 		r.Unk("infra.anchor", "x/cfeminter/types.GenesisState.Validate", "", "anchor not found")
